@@ -98,7 +98,8 @@ def struct_layout(body, structs):
 
 
 class Leaf:
-    def __init__(self, pc, ret, store, entry, calls, trace):
+    def __init__(self, pc, ret, store, entry, calls, trace, pc_raw=None):
+        self.pc_raw = pc_raw if pc_raw is not None else pc
         self.pc = pc          # list of conditions (domain objects)
         self.ret = ret
         self.store = store    # {(base, off): (value, Ty)}
@@ -114,9 +115,14 @@ class State:
         self.offs = {}
         self.dirty = set()   # bases with a symbolic-offset store
         self.pc = []
+        self.pc_raw = []
         self.calls = []
         self.trace = []
         self.nalloca = 0
+
+    def assume(self, c):
+        self.pc.append(c)
+        self.pc_raw.append(c)
 
     def clone(self):
         s = State()
@@ -125,6 +131,7 @@ class State:
         s.offs = dict(self.offs)
         s.dirty = set(self.dirty)
         s.pc = list(self.pc)
+        s.pc_raw = list(self.pc_raw)
         s.calls = list(self.calls)
         s.trace = list(self.trace)
         s.nalloca = self.nalloca
@@ -155,7 +162,7 @@ class Interp:
         st = st or State()
         leaves = []
         for (s, r) in self._run_fn(fn, args, st, 0):
-            leaves.append(Leaf(s.pc, r, s.store, dict(self.entry_syms), s.calls, s.trace))
+            leaves.append(Leaf(s.pc, r, s.store, dict(self.entry_syms), s.calls, s.trace, s.pc_raw))
         return leaves
 
     # ---- function execution: generator of (state, retval)
@@ -241,9 +248,9 @@ class Interp:
                                 if visits[blk.name] > 1 and not getattr(self.dom, 'fork_in_loops', False):
                                     raise Unsupported('loop condition not decided in %s block %s' % (fn.name, blk.name))
                                 s2 = s1.clone()
-                                s1.pc.append(c)
+                                s1.assume(c)
                                 nc = self.dom.negate(c)
-                                s2.pc.append(nc)
+                                s2.assume(nc)
                                 if hasattr(self.dom, 'refine'):
                                     self.dom.refine(s1, c)
                                     self.dom.refine(s2, nc)
@@ -268,7 +275,7 @@ class Interp:
                                     break
                                 if dec is False:
                                     continue
-                                s2.pc.append(cond)
+                                s2.assume(cond)
                                 if hasattr(self.dom, 'refine'):
                                     self.dom.refine(s2, cond)
                                 others.append(cond)
@@ -278,7 +285,7 @@ class Interp:
                                 s2 = s1.clone()
                                 for c in others:
                                     nc = self.dom.negate(c)
-                                    s2.pc.append(nc)
+                                    s2.assume(nc)
                                     if hasattr(self.dom, 'refine'):
                                         self.dom.refine(s2, nc)
                                 if self.dom.feasible(s2.pc):
@@ -478,9 +485,9 @@ class Interp:
                     st.env[ins.res] = r
                     return [st]
             s2 = st.clone()
-            st.pc.append(c)
+            st.assume(c)
             nc = d.negate(c)
-            s2.pc.append(nc)
+            s2.assume(nc)
             st.env[ins.res] = a
             s2.env[ins.res] = b
             if hasattr(d, 'refine'):
